@@ -1147,19 +1147,22 @@ def _datom(a, datom, memo):
             du = derive(u, datom, memo)
             r = -du * Sqrt(ONE - u * u).inv() if du.t else ZERO
         else:
-            # uninterpreted: zero iff no argument depends on the support
-            sup = _support(datom)
+            # uninterpreted: D = 0 iff D of every argument is 0 (decided on the arguments themselves, so that
+            # atoms already known to be invariant — memo entries — count as invariant)
             dep = False
+
+            def arg_dep(g):
+                if isinstance(g, E):
+                    return bool(derive(g, datom, memo).t)
+                if isinstance(g, Atom):
+                    return bool(_datom(g, datom, memo).t)
+                if isinstance(g, (tuple, list)):
+                    return any(arg_dep(x) for x in g)
+                return False
             for g in a.args:
-                acc = set()
-                _arg_atoms(g, acc)
-                if acc & sup:
+                if arg_dep(g):
                     dep = True
                     break
-                for b in acc:
-                    if _datom(b, datom, memo).t:
-                        dep = True
-                        break
             if dep:
                 raise AlgError(f"no derivative rule for atom kind {k}")
             r = ZERO
@@ -1235,6 +1238,9 @@ def evalf(e, env=None, seed=0):
                         v = float("nan")
                 except Exception:
                     v = float("nan")
+            elif k in ("fn:max", "fn:min") and isinstance(a.args[0], tuple):
+                vs = [val(x) for x in a.args[0]]
+                v = (max if k == "fn:max" else min)(vs)
             else:
                 # uninterpreted function: a pseudo-random but *functional* value of the evaluated arguments,
                 # so that semantically equal arguments (e.g. a let atom and its definition) agree
@@ -1330,9 +1336,12 @@ def evald(e, datom, seed=0):
         if r is not None:
             return r
         k = a.kind
-        if k in ("sym", "psym", "pc", "euler"):
+        if a in datom and isinstance(a, Atom):
             v = evalf(E.atom(a), seed=seed)
-            d = evalf(lift(datom[a]), seed=seed) if a in datom else 0.0
+            d = evalf(lift(datom[a]), seed=seed)
+        elif k in ("sym", "psym", "pc", "euler"):
+            v = evalf(E.atom(a), seed=seed)
+            d = 0.0
         elif k == "let":
             v, d = val(a.defn)
         elif k == "poly":
@@ -1370,6 +1379,9 @@ def evald(e, datom, seed=0):
         elif k == "fn:select":
             take_a = (hash((seed, a.id)) & 1) == 0
             v, d = val(a.args[1] if take_a else a.args[2])
+        elif k in ("fn:max", "fn:min"):
+            pairs = [val(x) for x in a.args[0]]
+            v, d = (max if k == "fn:max" else min)(pairs, key=lambda p: p[0])
         else:
             v = evalf(E.atom(a), seed=seed)
             d = 0.0
